@@ -52,6 +52,14 @@ pub fn make_where_clause<'a>(
             predicates: Punctuated::new(),
         });
 
+    // Lifetime parameters always have to be `'static`, with or without custom bounds: the
+    // `TypeInfo::Identity` of the type must be `'static`.
+    for lifetime in generics.lifetimes() {
+        where_clause
+            .predicates
+            .push(parse_quote!(#lifetime: 'static))
+    }
+
     // Use custom bounds as where clause.
     if let Some(custom_bounds) = attrs.bounds() {
         custom_bounds.extend_where_clause(&mut where_clause);
@@ -64,12 +72,6 @@ pub fn make_where_clause<'a>(
         }
 
         return Ok(where_clause);
-    }
-
-    for lifetime in generics.lifetimes() {
-        where_clause
-            .predicates
-            .push(parse_quote!(#lifetime: 'static))
     }
 
     let ty_params_ids = generics
